@@ -26,18 +26,25 @@ Bad(e) ==
   \cup (IF \A i \in DOMAIN e.ucalls : IsPrefix(e.prefix, e.ucalls[i]) THEN {} ELSE {"confined"})
   \cup (IF Outside(e.outside_before, e.prefix) = Outside(e.outside_after, e.prefix) THEN {} ELSE {"outside"})
   \cup (IF e.leak THEN {"leak"} ELSE {})
+\* what was judged (vacuity guard): TLC registers, single worker; totals are printed with DONE
+CN == [events |-> 701, with_dotdot |-> 702, absolute |-> 703, underlying_calls_seen |-> 704, operations |-> 705]
+Bump(i) == TLCSet(i, TLCGet(i) + 1)
+BumpIf(c, i) == IF c THEN Bump(i) ELSE TRUE
+Counters == [x \in DOMAIN CN |-> TLCGet(CN[x])]
 Next ==
   /\ l <= Len(Rec)
   /\ LET e == Rec[l]  bad == Bad(e) IN
-     IF bad = {} THEN TRUE
-     ELSE Report("VIOL", [l |-> l, seg |-> l, secondary |-> FALSE, conjs |-> bad,
+     /\ Bump(CN.events) /\ BumpIf(e.shape.dotdot, CN.with_dotdot) /\ BumpIf(e.shape.abs, CN.absolute) /\ BumpIf(Len(e.ucalls) > 0, CN.underlying_calls_seen)
+     /\ TLCSet(CN.operations, TLCGet(CN.operations) + Len(e.ops))
+     /\ (IF bad = {} THEN TRUE
+          ELSE Report("VIOL", [l |-> l, seg |-> l, secondary |-> FALSE, conjs |-> bad,
                           sig |-> [conj |-> CHOOSE c \in bad : TRUE, op |-> "hostile", kind |-> IF "kindtag" \in DOMAIN e THEN e.kindtag ELSE "confine", cfg |-> e.cfg,
                                    panicking |-> {e.ops[i].op : i \in {j \in DOMAIN e.ops : e.ops[j].c = "panic"}},
-                                   dotdot |-> e.shape.dotdot, doubled_slash |-> e.shape.dslash, absolute |-> e.shape.abs]])
+                                   dotdot |-> e.shape.dotdot, doubled_slash |-> e.shape.dslash, absolute |-> e.shape.abs]]))
   /\ l' = l + 1
-Init == l = 1
+Init == l = 1 /\ \A x \in DOMAIN CN : TLCSet(CN[x], 0)
 TrSpec == Init /\ [][Next]_l
 Consumed ==
-  IF TLCGet("stats").diameter - 1 = Len(Rec) THEN Report("DONE", [events |-> Len(Rec)])
+  IF TLCGet("stats").diameter - 1 = Len(Rec) THEN Report("DONE", [events |-> Len(Rec), judged |-> Counters])
   ELSE Report("STUCK", [at |-> TLCGet("stats").diameter, of |-> Len(Rec)]) /\ FALSE
 =============================================================================
